@@ -246,6 +246,10 @@ def result_check(ex, spec, inputs, scalars, extents, expected=None):
                              "missing": missing, "extra": extra, "wrong": wrong,
                              "n_missing": sum(1 for k in exp if k not in got),
                              "n_extra": sum(1 for k in got if k not in exp),
+                             "n_extra_inrange": sum(
+                                 1 for k in got if k not in exp and all(
+                                     isinstance(c, int) and 0 <= c < extents[r]
+                                     for c, r in zip(k, spec.decl[name]))),
                              "n_over": sum(1 for k in exp if k in got and got[k] > exp[k]),
                              "n_under": sum(1 for k in exp if k in got and got[k] < exp[k]),
                              "n_got": len(got), "n_exp": len(exp)})
